@@ -9,6 +9,7 @@ import (
 )
 
 func init() {
+	verifRegister("VerifC03_KForms", VerifC03_KForms)
 	verifRegister("VerifC03_KForged", VerifC03_KForged)
 	verifRegister("VerifC03_KBuiltins", VerifC03_KBuiltins)
 	verifRegister("VerifC03_KSource", VerifC03_KSource)
@@ -383,5 +384,32 @@ func VerifC03_KForged() {
 	res := env.LoadString("use", ops[oi])
 	vAssert(!lisp.IsInternalPanic(res), "no builtin answers a forged typedef with internal-panic: "+outcome(res))
 	cleanRuntime(env, "user")
+	vCover("end")
+}
+
+
+// Special operators and macros handed MALFORMED structure (the registry sweep above passes values,
+// not shapes of unevaluated forms): every binding-taking / clause-taking form x 14 shapes of its
+// structural argument x 3 bodies: an ordinary error or a value, never internal-panic.
+func VerifC03_KForms_Setup() { VerifC03_KBuiltins_Setup() }
+
+func VerifC03_KForms() {
+	env := c03Env
+	if env == nil {
+		VerifC03_KBuiltins_Setup()
+		env = c03Env
+	}
+	heads := []string{"let", "let*", "flet", "labels", "macrolet", "dotimes", "lambda", "defun zz", "defmacro zz", "cond", "handler-bind", "set", "set!", "quasiquote", "thread-first 1", "thread-last 1", "deftype zz", "defconst", "export", "in-package", "use-package", "assert", "ignore-errors", "progn", "if", "or", "and", "function", "expr", "funcall", "apply", "unpack", "trace", "foldl", "map 'list"}
+	shapes := []string{"()", "(x)", "((x))", "((x y))", "((x) (y))", "(((x)))", "((x ()))", "((x () 1) (y))", "((1))", "((\"s\" 1))", "(x . y)", "([x])", "((x &rest))", "((&key))", "(&optional)", "5", "\"s\"", "'(x)", "((x (unquote y)))", "(() ())"}
+	bodies := []string{"", " 1", " (x)", " (x 1 2)"}
+	hi := vConcInt(vndChoice("head", len(heads)))
+	si := vConcInt(vndChoice("shape", len(shapes)))
+	bi := vConcInt(vndChoice("body", len(bodies)))
+	src := "(" + heads[hi] + " " + shapes[si] + bodies[bi] + ")"
+	res := env.LoadString("forms", src)
+	vObserve("src", src)
+	vAssert(res != nil, "a value or an error comes back")
+	vAssert(!lisp.IsInternalPanic(res), "no malformed form panics the host: "+src+" gave "+outcome(res))
+	env.LoadString("reset", "(in-package 'user)")
 	vCover("end")
 }
